@@ -4,6 +4,9 @@ import os, sys, json, time, signal, tempfile, shutil, traceback, multiprocessing
 import numpy as np
 
 
+REACHED = set()      # (file, function) of the library executed by the workers of this process' runs (see reach.py)
+
+
 class CaseTimeout(Exception):
     pass
 
@@ -42,6 +45,8 @@ def run_cases(cases, fn, nproc=None, per_case_timeout=180, wall_budget=3600, ini
         signal.signal(signal.SIGALRM, _alarm)
         if init:
             init()
+        from . import reach, env
+        reach.start(env.REPO)
         with open(os.path.join(tmpdir, f"{wid}.jsonl"), "w") as out:
             while True:
                 with counter.get_lock():
@@ -61,12 +66,15 @@ def run_cases(cases, fn, nproc=None, per_case_timeout=180, wall_budget=3600, ini
                 finally:
                     signal.alarm(0)
                 out.write(json.dumps({"done": i, "status": status, "wall": round(time.time() - t0, 2), "result": jsonable(r)}) + "\n")
+                out.write(json.dumps({"reach": reach.drain()}) + "\n")
                 out.flush()
         os._exit(0)
 
     if nproc <= 1 or len(cases) <= 1:
         # in-process (replay, debugging)
         signal.signal(signal.SIGALRM, _alarm)
+        from . import reach, env
+        reach.start(env.REPO)
         for i, c in enumerate(cases):
             if time.time() > deadline:
                 break
@@ -80,6 +88,7 @@ def run_cases(cases, fn, nproc=None, per_case_timeout=180, wall_budget=3600, ini
             finally:
                 signal.alarm(0)
             records[i] = {"i": i, "status": status, "result": jsonable(r)}
+        REACHED.update(tuple(x) for x in reach.drain())
     else:
         pids = {}
         wid = 0
@@ -108,7 +117,9 @@ def run_cases(cases, fn, nproc=None, per_case_timeout=180, wall_budget=3600, ini
                     d = json.loads(line)
                 except Exception:
                     continue
-                if "start" in d:
+                if "reach" in d:
+                    REACHED.update(tuple(x) for x in d["reach"])
+                elif "start" in d:
                     started = d["start"]
                     records.setdefault(started, {"i": started, "status": "crashed", "result": {}})
                 elif "done" in d:
